@@ -270,8 +270,13 @@ def h_plugin() -> bool:
     base = len(P) - 28                     # offset of the signature list's count word
     if CASE.startswith("count"):
         k = int(CASE[5:])
-        v = sym_int("v", 0, 255)
-        data = mkbytes(P[:base + k], [v], P[base + k + 1:])
+        # (extreme values by solver-resolved choice: a symbolic loop bound would be explored one iteration count at a time)
+        vi = sym_int("vi", 0, 5)
+        v = 0
+        for idx, cand in enumerate((0x00, 0x01, 0x02, 0x7F, 0x80, 0xFF)):
+            if vi == idx:
+                v = cand
+        data = P[:base + k] + bytes([v]) + P[base + k + 1:]
     else:
         i = sym_int("i", base + 4, len(P) - 1)
         v = sym_int("v", 0, 255)
@@ -285,8 +290,9 @@ def h_plugin() -> bool:
     from udparsers.oe500 import oe500
     try:
         with deadline(25 if SYMBOLIC else 10):
+            from harness.C20_hwdiags import env as chipdata_env      # (directory scan of the chip data files stubbed: E5)
             with patched(peltool, json=fj, prettyPrint=lambda t, *a, **k: t, print=rec), _p(user_data, json=fj), \
-                    _p(parse_user_data, json=fj), _p(oe500, json=fj):
+                    _p(parse_user_data, json=fj), _p(oe500, json=fj), chipdata_env(False):
                 eid, tok = peltool.parsePEL(DataStream(data, byte_order="big", is_signed=False), cfg, False)
         kind = "doc" if hasattr(tok, "obj") else "empty"
     except HangDetected as e:
